@@ -200,7 +200,17 @@ func (h *RealtimeHandler) HandleParticipantJoin(ctx context.Context, handleFrame
 		SignedLatency: &models.SignedLatency{},
 	}
 
-	session.AddParticipant(participant)
+	if !session.AddParticipant(participant) {
+		// The last participant left and the session ended between the lookup
+		// and here.
+		respond.Send(&hagallpb.ErrorResponse{
+			Type:      hagallpb.MsgType_MSG_TYPE_ERROR_RESPONSE,
+			Timestamp: timestamppb.Now(),
+			RequestId: req.RequestId,
+			Code:      hagallpb.ErrorCode_ERROR_CODE_NOT_FOUND,
+		})
+		return nil
+	}
 	h.stopFrameHandling = session.HandleFrame(handleFrame)
 
 	respond.Send(&hagallpb.ParticipantJoinResponse{
@@ -1026,7 +1036,7 @@ func (h *RealtimeHandler) leaveSession() {
 		})
 	})
 
-	if session.ParticipantCount() == 0 {
+	if session.CloseIfEmpty() {
 		// Here we use a context.Background to ensure the session to be deleted
 		// on the session discovery service (eg HDS).
 		h.Sessions.Remove(context.Background(), session)
